@@ -94,6 +94,10 @@ def generate(rng, tier):
         f = {'dt': dtid, 'k': k, 'pid': p['pid']}
         if r < 0.25 and (p['want'] or '').startswith('tb') and p['j'] == p['raise_at']:
             f['kind'] = 'noraise'
+        elif r < 0.32:
+            # not an Exception, and not one of the graceful exits: must come out of run()
+            f['kind'] = 'interrupt'
+            f['exc'] = rng.choice(['Failed', 'Failed', 'SimBaseExc'])
         else:
             f['kind'] = 'raise'
             f['exc'] = rng.choice(['ValueError', 'ZeroDivisionError', 'RuntimeError', 'AssertionError', 'KeyError',
